@@ -103,3 +103,198 @@ Proof.
   destruct (J_reachable m prio rb s Vm Hrb R) as [J1 J2]. destruct (mainq_fifo m prio rb Vm Hrb s R) as (_ & _ & ND & _).
   split; [apply J1; exact M|]. split; [exact F|]. split; [exact M | exact ND].
 Qed.
+
+(* ================================================================== L2: the waits for an enqueuer's link are never stuck *)
+Definition L2 (s : mst) : Prop :=
+  forall e, In e (snap s ++ lst (lane s)) -> e_linked e = false -> exists t w q, pcs (lane s) t = PA_link (e_id e) w q.
+
+(* entries and link program points under a lane step of a thread that is not pushing *)
+Lemma gstep_lists l t l' :
+  gstep l t = Some l' -> lane_ok MIdle (pcs l t) = true ->
+  incl (lst l') (lst l) /\ (forall u i w q, pcs l u = PA_link i w q -> pcs l' u = PA_link i w q).
+Proof.
+  intros B Hk. unfold gstep in B. destruct (pcs l t) eqn:Hpc; try discriminate; cbn [lane_ok] in Hk; try discriminate Hk;
+    break_step B; injection B as <-; lproj;
+    (split; [repeat match goal with H : lst l = _ |- _ => rewrite H; clear H end;
+             try apply incl_refl; try (apply incl_tl; apply incl_refl); try (intros x []) |
+             intros u i0 w0 q0 Hu; destruct (Z.eq_dec u t) as [->|N]; [congruence | rewrite upd_other by exact N; exact Hu]]).
+Qed.
+
+Lemma L2_keep s s' :
+  L2 s -> incl (snap s' ++ lst (lane s')) (snap s ++ lst (lane s)) ->
+  (forall u i w q, pcs (lane s) u = PA_link i w q -> pcs (lane s') u = PA_link i w q) -> L2 s'.
+Proof.
+  intros H Hi Hp e He Hl. destruct (H e (Hi e He) Hl) as (t & w & q & E). exists t, w, q. apply Hp. exact E.
+Qed.
+
+
+Lemma ids_nodup_pre s r : ginv1 s r -> NoDup (ids (snap s) ++ ids (lst (lane s))).
+Proof.
+  intros G. pose proof (a_order s r G) as AO. pose proof (zrange_nodup (nextid (lane s))) as ND. rewrite <- AO in ND.
+  apply suffix_nodup in ND. apply suffix_nodup in ND. exact ND.
+Qed.
+
+Lemma nodup_app_l {A} (l1 l2 : list A) : NoDup (l1 ++ l2) -> NoDup l1.
+Proof. intros H. apply (prefix_nodup l1 l2 (l1 ++ l2) eq_refl H). Qed.
+
+(* the link step: the entry with id i becomes linked wherever it is; the other unlinked entries keep their pusher *)
+Lemma L2_link s t i we q l1 l2 pcs' :
+  (forall e, In e (snap s ++ lst (lane s)) -> e_linked e = false -> exists u w q0, pcs (lane s) u = PA_link (e_id e) w q0) ->
+  pcs (lane s) t = PA_link i we q ->
+  NoDup (map e_id (snap s)) -> NoDup (map e_id (lst (lane s))) ->
+  l1 = link_id (snap s) i -> l2 = link_id (lst (lane s)) i ->
+  (forall u, u <> t -> pcs' u = pcs (lane s) u) ->
+  forall e, In e (l1 ++ l2) -> e_linked e = false -> exists u w q0, pcs' u = PA_link (e_id e) w q0.
+Proof.
+  intros H Hlp N1 N2 -> -> Fr e He Hl. apply in_app_or in He.
+  assert (X : In e (snap s ++ lst (lane s)) /\ e_id e <> i).
+  { destruct He as [He|He].
+    - destruct (in_link_id _ _ _ N1 He Hl) as [A B]. split; [apply in_or_app; left; exact A | exact B].
+    - destruct (in_link_id _ _ _ N2 He Hl) as [A B]. split; [apply in_or_app; right; exact A | exact B]. }
+  destruct X as [Hin Hne]. destruct (H e Hin Hl) as (u & w & q0 & E). exists u, w, q0.
+  rewrite Fr; [exact E|]. intros ->. rewrite Hlp in E. injection E as E1 _ _. congruence.
+Qed.
+
+Lemma lane_not_link s t : Inv s -> (forall k, mpcs s t <> MP_push k) -> forall i w q, pcs (lane s) t <> PA_link i w q.
+Proof.
+  intros (T & _) Hm i w q E. destruct (T t) as (_ & T2 & _). rewrite E in T2.
+  destruct (mpcs s t) eqn:Hpc; cbn [lane_ok] in T2; try discriminate T2; try (destruct d; discriminate T2).
+  apply (Hm k). reflexivity.
+Qed.
+
+(* steps that leave the entries alone (or drop some) and do not move a thread away from its link program point *)
+Ltac l2_keep HL :=
+  apply (L2_keep _ _ HL); mproj; lproj;
+  [ try apply incl_refl | intros u i0 w0 q0 Hu; try exact Hu ].
+
+Lemma L2_set_pc_nolink s t p : Inv s -> L2 s -> (forall k, mpcs s t <> MP_push k) ->
+  forall u i w q, pcs (lane s) u = PA_link i w q -> upd (pcs (lane s)) t p u = PA_link i w q.
+Proof.
+  intros I H Hm u i w q Hu. destruct (Z.eq_dec u t) as [->|N]; [destruct (lane_not_link s t I Hm i w q Hu) | rewrite upd_other by exact N; exact Hu].
+Qed.
+
+Ltac pcs_goal I Hpc t :=
+  let u := fresh "u" in let N := fresh "N" in let Hu := fresh "Hu" in
+  intros u ? ? ? Hu;
+  first [ exact Hu
+        | destruct (Z.eq_dec u t) as [->|N];
+          [ exfalso; eapply (lane_not_link _ t I); [intros ?; rewrite Hpc; discriminate | exact Hu]
+          | rewrite ?upd_other by exact N; exact Hu ] ].
+
+Lemma L2_step s a s' : Inv s -> L2 s -> mstep_rel s a s' -> L2 s'.
+Proof.
+  intros I H St. destruct a as [t c|t|t|t]; destruct St as [V B].
+  - unfold mbegin in B. destruct (pcs (lane s) t) eqn:Hlp; try discriminate B.
+    assert (Nl : forall u i w q, pcs (lane s) u = PA_link i w q -> u <> t) by (intros u i w q Hu ->; congruence).
+    destruct c; try (destruct (begin (lane s) t (CWorker floor)) as [lb|] eqn:BG); destruct (mpcs s t) eqn:Hpc; brk B; try discriminate B;
+      apply some_inj in B; rewrite <- B; unfold callback;
+      repeat match goal with |- context [if ?x then _ else _] => destruct x end;
+      try (apply (L2_keep _ _ H); mproj; lproj; [apply incl_refl | intros u i0 w0 q0 Hu; try exact Hu; rewrite upd_other by (apply (Nl u i0 w0 q0 Hu)); exact Hu]).
+    + (* a worker pops the lane *)
+      unfold begin in BG. rewrite Hlp in BG. destruct (0 <? rootq (lane s)); [|discriminate]. injection BG as <-.
+      apply (L2_keep _ _ H); mproj; lproj; [apply incl_refl | intros u i0 w0 q0 Hu; rewrite upd_other by (apply (Nl u i0 w0 q0 Hu)); exact Hu].
+  - unfold mstep, lane_step in B. destruct (mpcs s t) eqn:Hpc.
+    all: cbv beta iota zeta in B.
+    all: try (match type of B with context [gstep] => fail 1 | _ => idtac end; brk B; try discriminate B; apply some_inj in B; rewrite <- B;
+              repeat match goal with |- context [if ?x then _ else _] => destruct x end;
+              repeat match goal with |- context [match ?x with KRet => _ | KWait => _ | KDrain => _ end] => destruct x end;
+              repeat match goal with |- L2 (set_mpc _ _ (match ?x with _ => _ end)) => destruct x end;
+              (apply (L2_keep _ _ H); [mproj; lproj; try apply incl_refl | mproj; lproj; pcs_goal I Hpc t]); fail).
+    + (* ordinary lane code *)
+      destruct (gstep (lane s) t) as [l'|] eqn:GS; [|discriminate]. apply some_inj in B. rewrite <- B.
+      pose proof I as (T & _). destruct (T t) as (_ & T2 & _). rewrite Hpc in T2.
+      destruct (gstep_lists _ _ _ GS T2) as [A1 A2].
+      apply (L2_keep _ _ H); mproj; [apply incl_app_app; [apply incl_refl | exact A1] | exact A2].
+    + (* the push *)
+      pose proof I as (T & _ & _ & G). destruct (T t) as (_ & T2 & _). rewrite Hpc in T2. cbn [lane_ok] in T2.
+      destruct (pcs (lane s) t) eqn:Hlp; try discriminate T2; unfold gstep in B; rewrite Hlp in B; apply some_inj in B; rewrite <- B.
+      * (* exchange: the new entry is not linked, its pusher is at the link point *)
+        intros e He Hl. mproj_in He. lproj_in He. mproj. lproj. rewrite app_assoc in He. apply in_app_or in He. destruct He as [He|He].
+        -- destruct (H e He Hl) as (u & w & q & E). exists u, w, q. rewrite upd_other; [exact E|]. intros ->. congruence.
+        -- destruct He as [<-|[]]. exists t. eexists _, _. rewrite upd_same. reflexivity.
+      * (* link *)
+        assert (ND : NoDup (map e_id (snap s)) /\ NoDup (map e_id (lst (lane s)))).
+        { destruct (c_lane (mcl s)).
+          - destruct G as [I2 G2]. rewrite (b_snap s G2). split; [constructor | exact (ids_nodup (lane s) I2)].
+          - destruct G as [r G]. pose proof (ids_nodup_pre s r G) as ND. split; [exact (nodup_app_l _ _ ND) | exact (suffix_nodup _ _ ND)]. }
+        destruct ND as [N1 N2].
+        intros e He Hl. mproj_in He. lproj_in He. mproj. lproj.
+        apply (L2_link s t i was_empty qos _ _ _ H Hlp N1 N2 eq_refl eq_refl); [|exact He|exact Hl].
+        intros u N. apply upd_other. exact N.
+    + (* MB_snap: the list moves into the snapshot *)
+      apply some_inj in B. rewrite <- B. apply (L2_keep _ _ H); mproj; lproj.
+      * rewrite app_nil_r. apply incl_appr. apply incl_refl.
+      * intros u i0 w0 q0 Hu. exact Hu.
+    + (* MB_next: the head of the snapshot is taken *)
+      destruct (snap s) as [|e [|e2 r]] eqn:Sn; try discriminate B.
+      * apply some_inj in B. rewrite <- B. apply (L2_keep _ _ H); mproj; lproj; [rewrite Sn; apply incl_appr; apply incl_refl | intros u i0 w0 q0 Hu; exact Hu].
+      * destruct (e_linked e2); [|discriminate B]. apply some_inj in B. rewrite <- B.
+        apply (L2_keep _ _ H); mproj; lproj; [rewrite Sn; cbn [app]; apply incl_tl; apply incl_refl | intros u i0 w0 q0 Hu; exact Hu].
+    + (* MC_push: the lane's PA_rootpush *)
+      pose proof I as (T & _). destruct (T t) as (_ & T2 & _). rewrite Hpc in T2. cbn [lane_ok] in T2.
+      destruct (pcs (lane s) t) eqn:Hlp; try discriminate T2. unfold gstep in B. rewrite Hlp in B. apply some_inj in B. rewrite <- B.
+      apply (L2_keep _ _ H); mproj; lproj; [apply incl_refl|].
+      intros u i0 w0 q0 Hu. destruct (Z.eq_dec u t) as [->|N]; [congruence | rewrite upd_other by exact N; exact Hu].
+  - (* the override continuation *)
+    unfold mostep, lane_step in B. destruct (mpcs s t) eqn:Hpc; try discriminate B.
+    + exfalso. unfold ostep in B. pose proof I as (T & _). destruct (T t) as (_ & T2 & _). rewrite Hpc in T2.
+      destruct (pcs (lane s) t); try discriminate B. discriminate T2.
+    + pose proof I as (T & _ & _ & G). destruct (T t) as (_ & T2 & _). rewrite Hpc in T2. cbn [lane_ok] in T2.
+      destruct (pcs (lane s) t) eqn:Hlp; try discriminate B. destruct was_empty; [discriminate B|].
+      unfold gstep in B. rewrite Hlp in B. apply some_inj in B. rewrite <- B.
+      assert (ND : NoDup (map e_id (snap s)) /\ NoDup (map e_id (lst (lane s)))).
+      { destruct (c_lane (mcl s)).
+        - destruct G as [I2 G2]. rewrite (b_snap s G2). split; [constructor | exact (ids_nodup (lane s) I2)].
+        - destruct G as [r G]. pose proof (ids_nodup_pre s r G) as ND. split; [exact (nodup_app_l _ _ ND) | exact (suffix_nodup _ _ ND)]. }
+      destruct ND as [N1 N2].
+      intros e He Hl. mproj_in He. lproj_in He. mproj. lproj.
+      apply (L2_link s t i false qos _ _ _ H Hlp N1 N2 eq_refl eq_refl); [|exact He|exact Hl].
+      intros u N. apply upd_other. exact N.
+  - unfold mspur in B. destruct (mpcs s t); try discriminate B. injection B as <-. exact H.
+Qed.
+
+Theorem L2_reachable m prio rb s : valid_tid m -> 0 <= rb < 2 -> mreach m prio rb s -> L2 s.
+Proof.
+  intros Vm Hrb R. induction R as [s0 ->|s a s' R IH H].
+  - intros e He. contradiction He.
+  - apply (L2_step s a s'); [exact (Inv_reachable m prio rb s Vm Hrb R) | exact IH | exact H].
+Qed.
+
+(* ================================================================== the waits for a link are never stuck *)
+(* a thread at the link program point can always publish its link *)
+Lemma link_enabled s u i w q : Inv s -> pcs (lane s) u = PA_link i w q -> exists s', mstep s u = Some s'.
+Proof.
+  intros I Hu. pose proof I as (T & _). destruct (T u) as (_ & T2 & _). rewrite Hu in T2.
+  destruct (mpcs s u) eqn:Hpc; cbn [lane_ok] in T2; try discriminate T2; try (destruct d; discriminate T2).
+  unfold mstep. rewrite Hpc, Hu. unfold lane_step, gstep. rewrite Hu. eexists. reflexivity.
+Qed.
+
+(* the bound thread waiting for the head / for a successor link of its snapshot always has the enqueuer one step from
+   publishing it *)
+Theorem mainq_drain_waits_not_stuck m prio rb s t :
+  valid_tid m -> 0 <= rb < 2 -> mreach m prio rb s ->
+  mpcs s t = MB_head \/ mpcs s t = MB_next ->
+  (exists s', mstep s t = Some s') \/
+  (exists u i w q s', u <> t /\ pcs (lane s) u = PA_link i w q /\ mstep s u = Some s').
+Proof.
+  intros Vm Hrb R Hp. pose proof (Inv_reachable m prio rb s Vm Hrb R) as I. pose proof (L2_reachable m prio rb s Vm Hrb R) as H2.
+  assert (Other : forall e, In e (snap s ++ lst (lane s)) -> e_linked e = false -> pcs (lane s) t = Idle ->
+                  exists u i w q s', u <> t /\ pcs (lane s) u = PA_link i w q /\ mstep s u = Some s').
+  { intros e He Hl Hlp. destruct (H2 e He Hl) as (u & w & q & Hu). destruct (link_enabled s u _ _ _ I Hu) as [s' Hs].
+    exists u, (e_id e), w, q, s'. split; [intros ->; congruence | split; assumption]. }
+  destruct Hp as [Hpc|Hpc].
+  - destruct (main_thread s t _ I Hpc eq_refl) as [Et Ec]. pose proof (lane_of_plain s t _ I Hpc Logic.I) as Hlp.
+    pose proof I as (_ & _ & _ & G). rewrite Ec in G. cbn [mclass c_lane] in G. destruct G as [r G].
+    assert (Ne : lst (lane s) <> []) by (apply (a_ne s r G); rewrite Ec; reflexivity).
+    destruct (lst (lane s)) as [|e l] eqn:L; [congruence|]. destruct (e_linked e) eqn:El.
+    + left. unfold mstep. cbv zeta. rewrite Hpc, L, El. eexists. reflexivity.
+    + right. apply (Other e); [apply in_or_app; right; rewrite ?L; left; reflexivity | exact El | exact Hlp].
+  - destruct (main_thread s t _ I Hpc eq_refl) as [Et Ec]. pose proof (lane_of_plain s t _ I Hpc Logic.I) as Hlp.
+    pose proof I as (_ & _ & _ & G). rewrite Ec in G. cbn [mclass c_lane] in G. destruct G as [r G].
+    pose proof (a_snap s r G) as AS. rewrite Ec in AS.
+    destruct (snap s) as [|e [|e2 rest]] eqn:Sn; [discriminate AS| |].
+    + left. unfold mstep. cbv zeta. rewrite Hpc, Sn. eexists. reflexivity.
+    + destruct (e_linked e2) eqn:El.
+      * left. unfold mstep. cbv zeta. rewrite Hpc, Sn, El. eexists. reflexivity.
+      * right. apply (Other e2); [rewrite ?Sn; right; left; reflexivity | exact El | exact Hlp].
+Qed.
